@@ -218,3 +218,39 @@ theorem batchCounts_spec (ts : List Rat) (hts : ∀ t ∈ ts, 0 ≤ t) (rows : L
     exact map_congr_foldl rows _ _ (fun r hr => probs_count r (hrows r hr) t)
 
 end MlModel.Agg.Retrieval.Thr
+
+namespace MlModel.Agg.Retrieval.Thr
+
+/-- in a strictly increasing grid, exactly `j+1` points are `≤` the `j`-th one -/
+theorem countP_le_getElem (xp : List Rat) (h : xp.Pairwise (· < ·)) (j : Nat) (hj : j < xp.length) :
+    xp.countP (· ≤ xp[j]) = j + 1 := by
+  induction xp generalizing j with
+  | nil => simp at hj
+  | cons a rest ih =>
+    rw [List.pairwise_cons] at h
+    cases j with
+    | zero =>
+      simp only [List.getElem_cons_zero, List.countP_cons, Rat.le_refl, decide_true, if_true]
+      have : rest.countP (· ≤ a) = 0 := by
+        rw [List.countP_eq_zero]
+        intro b hb
+        simpa using Rat.not_le.mpr (h.1 b hb)
+      omega
+    | succ j =>
+      have hj' : j < rest.length := by simpa using hj
+      simp only [List.getElem_cons_succ, List.countP_cons]
+      rw [ih h.2 j hj']
+      have : a ≤ rest[j] := Rat.le_of_lt (h.1 _ (List.getElem_mem hj'))
+      simp [this]
+
+/-- `np.interp` on a grid point returns the grid value: `metric@t` for a configured threshold `t`
+is the metric at that threshold -/
+theorem interp_grid (xp fp : List Rat) (h : xp.Pairwise (· < ·)) (j : Nat) (hj : j < xp.length) :
+    interp xp[j] xp fp = fp.getD j 0 := by
+  unfold interp
+  simp only [countP_le_getElem xp h j hj, Nat.add_sub_cancel, Nat.add_one_ne_zero, if_false]
+  have : xp.getD j 0 = xp[j] := by simp [List.getD_eq_getElem?_getD, List.getElem?_eq_getElem hj]
+  simp only [this, if_true]
+  split <;> rfl
+
+end MlModel.Agg.Retrieval.Thr
